@@ -549,7 +549,9 @@ class Models:
             return h.struct if isinstance(h, HashVal) else h
         return v
 
-    def m_iter(self, ip, x):
+    def m_iter(self, ip, x, *sentinel):
+        if sentinel:
+            raise Unsupported('iter(callable, sentinel)')
         if isinstance(x, GenObj):
             return x
 
